@@ -84,6 +84,8 @@ def make_plan(seed: int, tier: str) -> dict:
     nf = 1 if info["uni"] else st.choice([2, 3])
     algo = st.choice(["mean_posterior", "mode_posterior", "scipy_minimize", "scipy_minimize"])
     relation = st.choice(["peer_change", "alone", "permutation"] + (["schedule", "schedule"] if algo == "scipy_minimize" else []))
+    if relation == "alone" and info["event"]:
+        relation = st.choice(["peer_change", "permutation"])     # (a joint cohort of one individual cannot be loaded)
     if algo == "scipy_minimize" and st.bernoulli(0.06 if tier == "quick" else 0.03):
         relation = "loky"
     n = st.choice([2, 3, 5, 7])
@@ -139,6 +141,20 @@ def peer_changed(df, plan, keep_id, kind):
         for f in feats:
             if not pd.isna(df2.loc[r, f]):
                 df2.loc[r, f] = (1.0 if st.bernoulli(0.5) else 0.0) if info["binary"] else round(min(max(st.uniform(0.02, 0.98), 0.01), 0.99), 5)
+    if info["event"]:
+        # the other individuals' *event* observations change too: dates moved (possibly before the population's reference time),
+        # statuses exchanged between two of them (the set of statuses present in the cohort is kept, the reader derives the number of events from it)
+        others = [pid for pid in dict.fromkeys(df2["ID"]) if pid != keep_id]
+        for pid in others:
+            sel = df2["ID"] == pid
+            t_last = float(df2.loc[sel, "TIME"].max())
+            new_t = round(t_last + st.uniform(0.0, 2.5), 3) if st.bernoulli(0.5) else round(float(df2.loc[sel, "EVENT_TIME"].iloc[0]) - st.uniform(0.2, 6.0), 3)
+            df2.loc[sel, "EVENT_TIME"] = max(new_t, round(t_last, 3))
+        if len(others) >= 2:
+            a, b = others[0], others[-1]
+            ea, eb = df2.loc[df2["ID"] == a, "EVENT_BOOL"].iloc[0], df2.loc[df2["ID"] == b, "EVENT_BOOL"].iloc[0]
+            df2.loc[df2["ID"] == a, "EVENT_BOOL"] = eb
+            df2.loc[df2["ID"] == b, "EVENT_BOOL"] = ea
     return df2
 
 
